@@ -88,7 +88,14 @@ func archiveLayout(file []byte, sortedIdx []int) layout {
 	nSpans := int(binary.BigEndian.Uint32(f[8:]))
 	m := int(binary.BigEndian.Uint32(f[12:]))
 	metaLen := int(binary.BigEndian.Uint32(f[16:]))
-	dataLen := len(file) - arcFooter - metaLen - indexLen
+	ftr := arcFooter
+	if file[len(file)-8] < 3 {
+		// format versions 1 and 2: 216-byte footer with a uint32 index length (the reader loads 220
+		// bytes and ignores the first 4, which belong to the index)
+		ftr = arcFooter - 4
+		indexLen = int(binary.BigEndian.Uint32(f[4:]))
+	}
+	dataLen := len(file) - ftr - metaLen - indexLen
 	off := l.add(0, dataLen, "data", -1)
 	off = l.add(off, 8*nSpans, "idx.span", -1)
 	for i := 0; i < m; i++ {
@@ -102,7 +109,7 @@ func archiveLayout(file []byte, sortedIdx []int) layout {
 		off = l.add(off, 12, "idx.suffix", sortedIdx[i])
 	}
 	off = l.add(off, metaLen, "meta", -1)
-	off = l.add(off, 8, "ftr.indexlen", -1)
+	off = l.add(off, 8-(arcFooter-ftr), "ftr.indexlen", -1)
 	off = l.add(off, 4, "ftr.spancount", -1)
 	off = l.add(off, 4, "ftr.chunkcount", -1)
 	off = l.add(off, 4, "ftr.metalen", -1)
@@ -636,6 +643,30 @@ func run(e *hx.Env) {
 		j := &job{b: wb, mut: Mut{Trunc: -1}, region: "witness", shape: "crafted", extra: []string{absent}}
 		pool.runAll([]*job{j})
 		ck.check(j)
+	}
+	if m != nil && (len(only) == 0 || only["arc"]) {
+		// the hand-assembled archive of the Lean witnesses (Model/CorruptWitness.lean), handed over by
+		// the driver: the real reader must read the valid file back, and the one-byte corruption of its
+		// span index that `archive_get_no_panic_full_false` proves to panic must crash the real reader
+		w := strings.Fields(m.Ask("witness arc"))
+		if len(w) == 3 {
+			var off int
+			fmt.Sscan(w[2], &off)
+			nm := hashOf([]byte("witness archive"))
+			wb := &baseInfo{Base: Base{ID: "aw", Kind: "arc", File: w[0], Name: hx.Hex(nm[:]), Count: 1, Addrs: []string{w[1]}, Datas: []string{"41"}},
+				stored: map[string]string{w[1]: "41"}}
+			wb.lay = archiveLayout(hx.Unhex(w[0]), []int{0})
+			j0 := &job{b: wb, mut: Mut{Trunc: -1}, region: "none", shape: "intact", extra: []string{absent}}
+			j1 := &job{b: wb, mut: Mut{Subs: [][2]int{{off, 255}}, Trunc: -1}, region: wb.lay.at(off).name, shape: "single", extra: []string{absent}}
+			pool.runAll([]*job{j0, j1})
+			ck.check(j0)
+			ck.check(j1)
+			if o := opOf(j1.res, "get", 0); j1.died == "" && (o == nil || o.Class != "panic") {
+				e.Rep.Disagree(caseOf(j1), fmt.Sprint(j1.res.Ops), "panic", "the Lean witness archive_get_no_panic_full_false does not crash the real archive reader")
+			}
+		} else {
+			e.Rep.Disagree("witness arc", "", strings.Join(w, " "), "driver did not return the witness archive")
+		}
 	}
 	for _, b := range bases {
 		// the unmodified file must read back exactly (sanity of the harness itself)
